@@ -665,14 +665,14 @@ theorem J.infRemove {m0 x v} (id : Nat) (h : J m0 x v) : J m0 x { v with infligh
 theorem J.drop_x {m0 v id} (h : J m0 (some id) v) (hx : v.poisoned = true ∨ ∀ e ∈ v.inflight, e.id ≠ id) : J m0 none v :=
   h.same (h.inv.drop_x hx) rfl (fun hp => hp) (fun _ _ hc => { hc with xNotSent := fun _ h => by cases h })
 
-theorem J.infRearm {m0 x v} (id key t : Nat) (h : J m0 x v) :
-    J m0 x { v with inflight := v.inflight.map (rearmEntry id key t) } :=
-  h.same (Inv.presD.infRearm id key t h.inv) rfl (fun hp => hp) (fun _ _ hc => { hc with })
+theorem J.infRearm {m0 x v} (id key t due : Nat) (h : J m0 x v) :
+    J m0 x { v with inflight := v.inflight.map (rearmEntry id key t due) } :=
+  h.same (Inv.presD.infRearm id key t due h.inv) rfl (fun hp => hp) (fun _ _ hc => { hc with })
 
-theorem J.popInsert {m0 v r rest} (key rem : Nat) (h : J m0 none v) (hpq : v.pq = r :: rest)
+theorem J.popInsert {m0 v r rest} (key rem due : Nat) (h : J m0 none v) (hpq : v.pq = r :: rest)
     (hnc : ∃ c, v.get r.cid = some c ∧ c.rxClosed = false) :
-    J m0 (some r.id) { v with pq := rest, inflight := v.inflight ++ [{ id := r.id, cid := r.cid, ctx := r.ctx, timerKey := key, remainder := rem }] } :=
-  h.same (Inv.presD.popInsert key rem h.inv hpq hnc) rfl (fun hp => hp) (fun _ _ hc =>
+    J m0 (some r.id) { v with pq := rest, inflight := v.inflight ++ [{ id := r.id, cid := r.cid, ctx := r.ctx, timerKey := key, remainder := rem, dueAt := due }] } :=
+  h.same (Inv.presD.popInsert key rem due h.inv hpq hnc) rfl (fun hp => hp) (fun _ _ hc =>
     { hc with
       pqNotSent := fun r' hr' => hc.pqNotSent r' (by rw [hpq]; exact List.mem_cons_of_mem _ hr')
       xNotSent := fun id hid => by
@@ -1246,8 +1246,8 @@ theorem J.presD (m0 : Mon C01St) : PresD (J m0) where
   cqPop := fun h hcq => h.cqPop hcq
   infRemove := fun id h => h.infRemove id
   drop_x := fun h hx => h.drop_x hx
-  popInsert := fun key rem h hpq hnc => h.popInsert key rem hpq hnc
-  infRearm := fun id key t h => h.infRearm id key t
+  popInsert := fun key rem due h hpq hnc => h.popInsert key rem due hpq hnc
+  infRearm := fun id key t due h => h.infRearm id key t due
   sendReqOk := fun t body h hp he hid hb => h.sendReqOk t body hp he hid hb
   sendReqFail := fun t body pn t' site h hp he hid hb => h.sendReqFail t body pn t' site hp he hid hb
   sendCancel := fun t ok h hc => h.sendCancel t ok hc
